@@ -245,8 +245,8 @@ class C08(frame.Findings, core.Check):
     pid = 'C08'
     title = 'TensorFrame concatenation, equality and column lookup laws'
     driver = 'drv_c07'
-    quick_cases = 1500
-    thorough_cases = 16000
+    quick_cases = 4000
+    thorough_cases = 30000
     rule = ('frames of C07; row partitions by 0-4 cut points (empty parts allowed, optionally of a frame that is itself '
             'the result of a selection chain), concatenations of arbitrary selection results, per-stype column '
             'partitions into 1-3 parts (optionally followed by a common row selection), ~20% with a schema / name / '
@@ -673,6 +673,41 @@ class C08(frame.Findings, core.Check):
         if kind == 'lookup':
             return ['lookup:frame'] + [f"lookup:{'ok' if isinstance(o, dict) else o}" for o in out[-3:]]
         return ['lookup:materialized'] + [f"materialized-col:{c['stype']}" for c in case['dataset']['cols']]
+
+    def extra_checks(self, rng, tier, report):
+        """exhaustive boxes: every weak composition of n rows into k parts (row partitions) and every placement of the
+        per-stype cut point for two column parts, on frames holding every storage kind"""
+        import itertools
+        N, K = (5, 4) if tier == 'thorough' else (4, 3)
+        st = ('numerical', 'timestamp', 'multicategorical', 'embedding', 'text_tokenized')
+        cases = []
+        for n in range(0, N + 1):
+            spec = frame.fixed_frame(rng, n, st)
+            for k in range(1, K + 1):
+                for cuts in itertools.combinations_with_replacement(range(n + 1), k - 1):
+                    parts = [{'frame': spec, 'ops': [{'op': 'sel', 'ix': ix}]}
+                             for ix in frame.slices_for_cuts(list(cuts), n)]
+                    cases.append({'kind': 'cat', 'dim': 0, 'mode': 'partition', 'whole': {'frame': spec, 'ops': []},
+                                  'expect': 'equal', 'parts': parts})
+        nrow = len(cases)
+        sts = st if tier == 'thorough' else st[:4]
+        spec = frame.fixed_frame(rng, 3, sts)
+        for cutv in itertools.product(range(3), repeat=len(sts)):
+            left = {'R': 3, 'feats': [], 'names_order': [], 'y': None, 'num_rows': None}
+            right = {'R': 3, 'feats': [], 'names_order': [], 'y': copy.deepcopy(spec['y']), 'num_rows': None}
+            for ft, c in zip(spec['feats'], cutv):
+                if c > 0:
+                    left['feats'].append(frame.col_sub(ft, 0, c))
+                if c < 2:
+                    right['feats'].append(frame.col_sub(ft, c, 2))
+            for p in (left, right):
+                p['names_order'] = [ft['s'] for ft in p['feats']]
+                if not p['feats']:
+                    p['num_rows'] = 3
+            cases.append({'kind': 'cat', 'dim': 1, 'mode': 'partition', 'whole': {'frame': spec, 'ops': []},
+                          'expect': 'equal', 'parts': [{'frame': left, 'ops': []}, {'frame': right, 'ops': []}]})
+        frame.run_box(self, cases, report, 'partition_box',
+                      {'row_partitions': nrow, 'col_partitions': len(cases) - nrow, 'rows': f'0..{N}', 'parts': f'1..{K}'})
 
 
 CHECK = C08()
